@@ -19,6 +19,7 @@ def evalSrc (fn : String) (args : List PyVal) : Except String PyVal :=
   | "_categorize", [a, b] => .ok (Src.categorize a b)
   | "match_actions", [a, b] => .ok (Src.match_actions a b)
   | "_is_applicable", [a] => .ok (Src.is_applicable a)
+  | "_detect_format", [a, b, c] => .ok (Src.detect_format a b c)
   | _, _ => .error s!"unknown function or arity: {fn}"
 
 partial def loop (hin hout : IO.FS.Stream) : IO Unit := do
